@@ -67,6 +67,17 @@ func (ex *Exec) specialExtern(st *State, call *ast.CallExpr, key string, callee 
 					st.assume(Implies(vs[1].C[0], Or(ds...)))
 				}
 			}
+		} else if recv != nil && len(vs) == 2 && len(recv.C) == 1 {
+			// a BiMap held in a variable or field: the dynamic type of what it returns is a ghost
+			// attribute of the BiMap object (bimapValTag / bimapKeyTag), fixed by table facts for the
+			// BiMaps stored in package-level tables
+			fn := "bimapValTag"
+			if key == "astikit.BiMap.GetInverse" {
+				fn = "bimapKeyTag"
+			}
+			DeclareFun(fn, []Sort{SInt}, SInt)
+			ex.assumedExt[key+" (the dynamic type of the result is an attribute of the BiMap object: table facts from the initialisers of package-level tables)"] = true
+			st.assume(Implies(vs[1].C[0], Eq(vs[0].C[0], App(fn, SInt, recv.C[0]))))
 		} else {
 			ex.assumedExt[key+" (total; result type unconstrained)"] = true
 		}
